@@ -156,8 +156,9 @@ def write_to(doc, fmt, dest, scratch):
         doc.serialize(s, format=fmt)
         return ("bytes", s.getvalue())
     p = os.path.join(scratch, "écrit-%s.out" % fmt)
-    if os.path.exists(p):
-        os.remove(p)
+    # the destination already exists and is longer than anything written here: what it held must be gone afterwards
+    with open(p, "wb") as f:
+        f.write(b"PREVIOUS CONTENT OF THE DESTINATION\n" * 4000)
     doc.serialize(p, format=fmt)
     return ("bytes", open(p, "rb").read())
 
